@@ -905,6 +905,109 @@ def runTable (C : Ctx) (keep : Bool) (flavors : List Str) : List Str → List Ta
       let r := runTable C keep flavors vro' rest
       ⟨out :: r.outs, r.raised, r.vro⟩
 
+/-! ## several top-level requests served by ONE `Eups` object (API use; Eups.setup l.1925-1940, l.1995-2060)
+
+The object carries `alreadySetupProducts` (`Dict`: product ↦ (product set up, reason it was chosen for)) from one request
+to the next.  A top-level `setup X`:
+1. looks `X` up with the dictionary as the previous request left it (so `setup dep 1.0; setup dep` answers 1.0 through the
+   `commandLine` entry);
+2. then RESETS the dictionary to "what the environment shows, reason unknown" and records `X` with its reason;
+3. unsets the version of `X` that is set up, with the dependencies of its table; sets `X` up;
+4. runs the table: every line is resolved with the dictionary entry of its product — after the reset that is
+   (what is set up, no reason), so nothing an earlier, finished request chose for a reason can outrank what the VRO
+   designates now (`applyAlready` only acts on entries that carry a reason).
+`unsetup X` touches the environment only. -/
+
+abbrev Dict := List (Str × (Prod × Option Str))
+abbrev EnvS := List (Str × Prod)
+
+def assocGet {α : Type} (k : Str) : List (Str × α) → Option α
+  | [] => none
+  | (k', v) :: rest => if k' == k then some v else assocGet k rest
+
+def assocSet {α : Type} (k : Str) (v : α) (l : List (Str × α)) : List (Str × α) :=
+  (k, v) :: l.filter (fun kv => kv.1 != k)
+
+def assocDel {α : Type} (k : Str) (l : List (Str × α)) : List (Str × α) := l.filter (fun kv => kv.1 != k)
+
+/-- one `setupRequired` / `setupOptional` line of a table, without the bookkeeping input of `TableLine` -/
+structure LineSpec where
+  name : Str
+  version : Option Str
+  vexpr : Option Str
+  lineVro : Option (List Str)
+  lineTags : List Str
+  lineKeep : Bool
+  optional : Bool
+deriving Repr
+
+structure HistCmd where
+  name : Str                    -- the product named
+  version : Option Str
+  lines : List LineSpec         -- the table of that product (the same for each of its versions)
+  unsetup : Bool
+deriving Repr
+
+structure HistState where
+  env : EnvS                    -- `SETUP_<NAME>`: what is set up
+  dict : Dict                   -- `alreadySetupProducts`
+deriving Repr
+
+inductive CmdOut where
+  | ok (top : Prod) (raised : Bool)      -- the product chosen; `raised`: a required dependency failed
+  | failed                               -- nothing found for the product named / not set up / an exception in the lookup
+deriving DecidableEq, Repr
+
+/-- `getSetupProducts()` entered with "reason unknown" -/
+def resetDict (env : EnvS) : Dict := env.map fun kv => (kv.1, (kv.2, none))
+
+/-- the lines of a table at depth 1, threading environment and dictionary -/
+def histLines (C : Ctx) (keep : Bool) (flavors vro : List Str) : EnvS → Dict → List LineSpec → EnvS × Dict × Bool
+  | env, dict, [] => (env, dict, false)
+  | env, dict, l :: rest =>
+    let tl : TableLine := { name := l.name, version := l.version, vexpr := l.vexpr, lineVro := l.lineVro,
+                            lineTags := l.lineTags, lineKeep := l.lineKeep, optional := l.optional,
+                            already := assocGet l.name dict }
+    match lineOutcome C keep flavors vro tl with
+    | .failed => if l.optional then histLines C keep flavors vro env dict rest else (env, dict, true)
+    | .setUp h =>
+      -- l.1995-2009: the version already set up is left alone (and nothing is recorded)
+      match assocGet l.name env with
+      | some sp =>
+        if sp.version == h.prod.version then histLines C keep flavors vro env dict rest
+        else histLines C keep flavors vro (assocSet l.name h.prod env) (assocSet l.name (h.prod, some h.reason) dict) rest
+      | none =>
+        histLines C keep flavors vro (assocSet l.name h.prod env) (assocSet l.name (h.prod, some h.reason) dict) rest
+
+/-- `unsetup X` / `unsetupSetupProduct(X)`: the product and the dependencies its table names leave the environment -/
+def unsetEnv (env : EnvS) (name : Str) (lines : List LineSpec) : EnvS :=
+  lines.foldl (fun e l => assocDel l.name e) (assocDel name env)
+
+def histStep (C : Ctx) (keep : Bool) (flavors vro : List Str) (s : HistState) (c : HistCmd) : HistState × CmdOut :=
+  if c.unsetup then
+    match assocGet c.name s.env with
+    | none => (s, .failed)
+    | some p => ({ s with env := unsetEnv s.env c.name c.lines }, .ok p false)
+  else
+    let r : Req := { name := c.name, version := c.version, vexpr := none, depth := 0, flavor := [],
+                     ignoreVersions := false, already := assocGet c.name s.dict }
+    match resolve C r keep vro flavors with
+    | .ok (some h) =>
+      -- the reset, from the environment as it is when the product has been found
+      let dict1 := assocSet c.name (h.prod, some h.reason) (resetDict s.env)
+      let env1 := if (assocGet c.name s.env).isSome then unsetEnv s.env c.name c.lines else s.env
+      let env2 := assocSet c.name h.prod env1
+      let (env3, dict3, raised) := histLines C keep flavors vro env2 dict1 c.lines
+      ({ env := env3, dict := dict3 }, .ok h.prod raised)
+    | _ => (s, .failed)
+
+def runHistory (C : Ctx) (keep : Bool) (flavors vro : List Str) : HistState → List HistCmd → List CmdOut × HistState
+  | s, [] => ([], s)
+  | s, c :: rest =>
+    let (s1, o) := histStep C keep flavors vro s c
+    let (os, s2) := runHistory C keep flavors vro s1 rest
+    (o :: os, s2)
+
 /-! ## a small concrete order for the correspondence runs and the examples
 
 Dotted decimal versions (`1.0`, `1.10`, `2.0.1`): components compared as numbers, a proper prefix
